@@ -36,6 +36,10 @@ func main() {
 		cmdLibReplay(os.Args[2:])
 	case "expr-replay":
 		cmdExprReplay(os.Args[2:])
+	case "asg-replay":
+		cmdAsgReplay(os.Args[2:])
+	case "sib-replay":
+		cmdSibReplay(os.Args[2:])
 	case "cmp-replay":
 		cmdCmpReplay(os.Args[2:])
 	case "grb-faults":
